@@ -223,7 +223,13 @@ fn exec_search(query: Vec<String>, config: &mut Config, default_config: &Config,
             let use_colors = !no_color && is_terminal;
 
             let mut searcher = Searcher::new(&query, config, default_config, use_colors);
-            searcher.list_search_results().unwrap();
+            // a consumer that closed the pipe is not a reason to crash
+            if let Err(err) = searcher.list_search_results() {
+                if err.kind() != std::io::ErrorKind::BrokenPipe {
+                    error_message("output", &err.to_string());
+                    return 1;
+                }
+            }
 
             let error_count = searcher.error_count;
             match error_count {
